@@ -3,6 +3,7 @@ package scen
 import (
 	"context"
 	"fmt"
+	"strconv"
 	"strings"
 	"time"
 
@@ -65,6 +66,11 @@ func init() {
 			}
 			for i, e := range strings.Split(p["seq"], ",") {
 				id := uint32(20 + i)
+				if b, n, ok := strings.Cut(e, "#"); ok { // "<est>#<id>": a caller-chosen id (ids are plain uint32 values; NextId merely starts at 1)
+					e = b
+					v, _ := strconv.ParseUint(n, 10, 32)
+					id = uint32(v)
+				}
 				reuse := strings.HasSuffix(e, "r")
 				e = strings.TrimSuffix(e, "r")
 				as, order, gap := e[0], e[1], ms(e[2:])
@@ -210,6 +216,7 @@ func init() {
 			}
 			if x.TimeDevs == 0 {
 				for i, e := range strings.Split(p["seq"], ",") {
+					e, _, _ = strings.Cut(e, "#")
 					e = strings.TrimSuffix(e, "r")
 					if ms(e[2:]) < 5*time.Second {
 						if v, ok := x.Data[fmt.Sprintf("derr%d", 20+i)]; ok {
@@ -277,6 +284,14 @@ func init() {
 				// the second connection long after the first (past every 5 s timer of the broker)
 				for _, a := range []string{"pA0", "hA0", "pD1000", "hD0"} {
 					out = append(out, explore.Params{"seq": a, "redial": "6000"})
+				}
+			case "ids":
+				// caller-chosen ids at the edges of uint32, alone and next to an ordinary id
+				for _, id := range []string{"0", "1", "2147483648", "4294967295"} {
+					for _, a := range []string{"pA0", "pD0", "hA0", "hD0", "hD1000"} {
+						out = append(out, explore.Params{"seq": a + "#" + id})
+					}
+					out = append(out, explore.Params{"seq": "hA0#" + id + ",pA0"}, explore.Params{"seq": "pD0,hD0#" + id})
 				}
 			case "reuse":
 				// the same id accepted again after its first listener was closed, each side accepting, both orders
